@@ -68,6 +68,23 @@ FsLenGrid(lazy) ==
         afi \in {1, 2}, hi \in 238..255, lo \in 0..255, t \in {<<3, 129, 6, 1, 0>>}}
    \cup {[ep |-> "Update.parse", b |-> UpdBody(BaseAttrs \o <<144, 14>> \o U16(5 + 2 + Len(t)) \o U16(afi) \o <<133, 0, 0>> \o <<hi, lo>> \o t)] :
         afi \in {1}, hi \in 238..255, lo \in 0..255, t \in {<<3, 129, 6, 1, 0>>}}
+\* BGP-LS NLRI (RFC 7752 3.2, AFI 16388 / SAFI 71): every NLRI type x protocol x one descriptor TLV of every kind with
+\* bodies of 0..21 octets (the IP reachability TLV 265 = mask octet + up to 16 prefix octets lies inside), node descriptor
+\* sub-TLVs, and a node descriptor followed by a prefix descriptor; handed to the NLRI decoder and, inside MP_REACH_NLRI
+\* and MP_UNREACH_NLRI, to Update.parse
+LsNlri(t, p, descs) == U16(t) \o U16(9 + Len(descs)) \o <<p>> \o Zeros(8) \o descs
+LsNlriGrid(lazy) ==
+   LET outer == {256, 257, 258, 259, 260, 261, 262, 263, 264, 518, 0}
+       node == Tlv22(256, Tlv22(512, <<0, 0, 253, 233>>) \o Tlv22(515, <<10, 0, 0, 1>>))
+       some == UNION {Bodies(n) : n \in {0, 1, 2, 3, 4, 5, 8, 9, 16, 17, 21}}
+       all == UNION {Bodies(n) : n \in 0..21}
+       descs == {Tlv22(o, bd) : o \in outer, bd \in some} \cup {Tlv22(265, bd) : bd \in all}
+                \cup {Tlv22(o, Tlv22(sb, bd)) : o \in {256, 257}, sb \in {512, 513, 514, 515, 516, 0}, bd \in UNION {Bodies(n) : n \in {0, 1, 4, 8, 9}}}
+                \cup {node \o Tlv22(o, bd) : o \in {263, 264, 265}, bd \in all}
+       nl(ts, ps) == {LsNlri(t, p, d) : t \in ts, p \in ps, d \in descs}
+   IN {[ep |-> "BGPLS.parse", b |-> x] : x \in nl({1, 2, 3, 4, 6, 0}, {2, 3})}
+      \cup {[ep |-> "Update.parse", b |-> UpdBody(BaseAttrs \o <<144, 14>> \o U16(9 + Len(x)) \o U16(16388) \o <<71, 4, 10, 0, 0, 9, 0>> \o x)] : x \in nl({2, 4}, {2})}
+      \cup {[ep |-> "Update.parse", b |-> U16(0) \o U16(7 + Len(x)) \o <<144, 15>> \o U16(3 + Len(x)) \o U16(16388) \o <<71>> \o x] : x \in nl({3, 4}, {3})}
 \* all octet strings of length <= MAXSHORT
 RECURSIVE Strings(_)
 Strings(n) == IF n = 0 THEN {<<>>} ELSE LET p == Strings(n - 1) IN p \cup {Append(s, x) : s \in {q \in p : Len(q) = n - 1}, x \in 0..255}
@@ -75,7 +92,7 @@ ShortInputs(lazy) == {[ep |-> "*", b |-> s] : s \in Strings(MAXSHORT)}
 
 VARIABLE vec
 Vecs == CASE FAMILY = "lsgrid" -> LsGrid(0) [] FAMILY = "sidgrid" -> SidGrid(0) [] FAMILY = "short" -> ShortInputs(0)
-          [] FAMILY = "nestgrid" -> NestGrid(0) [] FAMILY = "fslen" -> FsLenGrid(0) [] FAMILY = "capgrid" -> CapGrid(0) [] FAMILY = "attrgrid" -> AttrGrid(0) [] FAMILY = "mpgrid" -> MpGrid(0)
+          [] FAMILY = "nestgrid" -> NestGrid(0) [] FAMILY = "fslen" -> FsLenGrid(0) [] FAMILY = "capgrid" -> CapGrid(0) [] FAMILY = "attrgrid" -> AttrGrid(0) [] FAMILY = "mpgrid" -> MpGrid(0) [] FAMILY = "lsnlri" -> LsNlriGrid(0)
 Init == vec \in Vecs
 Next == FALSE /\ UNCHANGED vec
 Emit == PrintT("@W " \o ToJson(vec))
